@@ -85,10 +85,20 @@ DelEv(h, self, k, above) ==
                 found |-> TRUE,
                 len |-> Len(s.kids) - (IF r.len = 0 THEN 1 ELSE 0)]
 
+\* composite calls: BTree_pop = _BTree_get, then (key found) _BTree_set without a value; BTree_setdefault = _BTree_get, then
+\* (key missing) _BTree_set with the default; insert() = _BTree_set(unique); BTree_popitem = BTree_minKey() (no comparison)
+\* + BTree_pop(that key); TreeSet_pop = BTree_minKey() + TreeSet_remove(that key)
+HasKey(h, k) == Has(Contents(h), k)
+MinOf(h) == IF Len(Contents(h)) = 0 THEN 0 ELSE Contents(h)[1]
+ExtraOps == {"pop", "sdf", "ins", "popmin", "popmins"}
 OpEv(h, op, k) ==
   IF op = "get" THEN GetEv(h, Root, k)
-  ELSE IF op = "set" THEN SetEv(h, Root, k, {})
-  ELSE DelEv(h, Root, k, {}).ev
+  ELSE IF op \in {"set", "ins"} THEN SetEv(h, Root, k, {})
+  ELSE IF op = "del" THEN DelEv(h, Root, k, {}).ev
+  ELSE IF op = "pop" THEN GetEv(h, Root, k) \o (IF HasKey(h, k) THEN DelEv(h, Root, k, {}).ev ELSE <<>>)
+  ELSE IF op = "sdf" THEN GetEv(h, Root, k) \o (IF HasKey(h, k) THEN <<>> ELSE SetEv(h, Root, k, {}))
+  ELSE IF op = "popmin" THEN (IF MinOf(h) = 0 THEN <<>> ELSE GetEv(h, Root, MinOf(h)) \o DelEv(h, Root, MinOf(h), {}).ev)
+  ELSE (IF MinOf(h) = 0 THEN <<>> ELSE DelEv(h, Root, MinOf(h), {}).ev)      \* "popmins"
 
 (* C14: the n-th comparison of a call raises.  What is left behind:                          *)
 (*  - every comparison of get / set / delete precedes the first mutation, so the tree is     *)
@@ -137,7 +147,7 @@ FaultAtomic ==
                    /\ Contents(h2) \in {Contents(heap), Contents(GC(DelR(heap, Root, k).h))}
 
 \* the node a comparison reads is pinned while it is read
-ReadPinned == \A op \in {"get", "set", "del"} : \A k \in Keys \cup {0, 99} :
+ReadPinned == \A op \in {"get", "set", "del"} \cup ExtraOps : \A k \in Keys \cup {0, 99} :
    LET ev == OpEv(heap, op, k) IN \A j \in 1..Len(ev) : ev[j].node \in ev[j].pinned
 \* the events are exactly the comparisons the abstract search needs: a lookup finds k iff it is there
 RECURSIVE PathFromC(_, _, _)
@@ -154,9 +164,12 @@ EvOut(h, ev) == [j \in 1..Len(ev) |->
 \* spec -> code: expected events of every call on every shape (printed once per distinct state)
 MaxKeyC == CHOOSE x \in Keys : \A y \in Keys : y <= x
 DoneTree(h, op, k) ==
-  IF op = "set" THEN Proj(GC(SetR(h, Root, k, 1, FALSE).h), Root)
-  ELSE LET r == DelR(h, Root, k) IN Proj(GC(IF r.st = 0 THEN h ELSE r.h), Root)
+  IF op \in {"set", "sdf", "ins"} THEN Proj(GC(SetR(h, Root, k, 1, FALSE).h), Root)
+  ELSE LET kk == IF op \in {"popmin", "popmins"} THEN MinOf(h) ELSE k
+           r == DelR(h, Root, kk) IN Proj(GC(IF kk = 0 \/ r.st = 0 THEN h ELSE r.h), Root)
 DumpEv == PrintT(<<"CE", ToJson([tree |-> Proj(heap, Root),
-            calls |-> [op \in {"get", "set", "del"} |-> [k \in 1..(MaxKeyC + 1) |-> EvOut(heap, OpEv(heap, op, k))]],
-            done |-> [op \in {"set", "del"} |-> [k \in 1..(MaxKeyC + 1) |-> DoneTree(heap, op, k)]]])>>)
+            calls |-> [op \in {"get", "set", "del"} \cup ExtraOps |->
+                        [k \in 1..(IF op \in {"popmin", "popmins"} THEN 1 ELSE MaxKeyC + 1) |-> EvOut(heap, OpEv(heap, op, k))]],
+            done |-> [op \in {"set", "del"} \cup ExtraOps |->
+                        [k \in 1..(IF op \in {"popmin", "popmins"} THEN 1 ELSE MaxKeyC + 1) |-> DoneTree(heap, op, k)]]])>>)
 =============================================================================
